@@ -86,6 +86,16 @@ class RelayWorld(object):
       self.dests[dest] = d
       self.order.append(dest)
       self.wrap_factory(d)
+    self.reported = {}
+    self.drops_seen = {}
+    inst = w.instrumentation
+    real_rr = inst.relay_record
+    me = self
+
+    def relay_record(metric, value):
+      me.reported[metric] = me.reported.get(metric, 0) + (value if isinstance(value, (int, float)) else 0)
+      return real_rr(metric, value)
+    inst.relay_record = relay_record
     r.on_out_connect = self.on_out_connect
     for c in r.connectors:
       pass
@@ -159,6 +169,7 @@ class RelayWorld(object):
         self.ctx.violation('C07', 'attempt-not-counted', 'attemptedRelays',
                            'sendDatapoint changed attemptedRelays by %d' % attempts)
       if dropped:
+        self.drops_seen[f.fullQueueDrops] = self.drops_seen.get(f.fullQueueDrops, 0) + dropped
         self.ctx.probe('full_queue_drop')
         if q0 < hard or q0 < mx:
           self.ctx.violation('C07', 'drop-below-hard-limit', 'sendDatapoint',
@@ -766,7 +777,17 @@ class RelayWorld(object):
 
   def check_sent_counter(self):
     if self.settings.CARBON_METRIC_INTERVAL:
-      return      # the counters are reset at every instrumentation tick
+      # the counters are reset at every instrumentation tick: what was reported at the
+      # ticks plus what is pending must equal the discards that were counted one by one
+      stats = self.w.instrumentation.stats
+      for name, n in self.drops_seen.items():
+        total = self.reported.get(name, 0) + stats.get(name, 0)
+        if total != n:
+          self.ctx.violation('C07', 'drop-count-lost', 'fullQueueDrops',
+                             '%s: %d discards were counted as they happened; reported over the '
+                             'instrumentation ticks %r plus pending %r' % (
+                               name, n, self.reported.get(name, 0), stats.get(name, 0)))
+      return
     stats = self.w.instrumentation.stats
     for d in self.dests.values():
       proto_sent = 'destinations.%s.sent' % d.factory.destinationName
